@@ -520,6 +520,11 @@ func (ex *Exec) finish(res *FuncResult) {
 				ex.fail(token.NoPos, "contract out of date: no statement starts with %q in %s", a.Before, ex.name)
 			}
 		}
+		for i, g := range ex.fc.GhostUpd {
+			if !ex.ghostUpdHit[i] && len(ex.failures) == 0 {
+				ex.fail(token.NoPos, "contract out of date: no statement starts with %q in %s", g.Anchor, ex.name)
+			}
+		}
 		for _, sk := range ex.fc.Skip {
 			if !ex.skipHit[sk] && len(ex.failures) == 0 {
 				ex.fail(token.NoPos, "contract out of date: no statement starts with %q in %s", sk, ex.name)
